@@ -195,7 +195,7 @@ func c27Run(c *fx.Ctx) {
 	}
 	// 3. version numbers
 	var nums []uint64
-	for v := uint64(0); v <= 300; v++ {
+	for v := uint64(0); v <= uint64(c.Pick(300, 70000)); v++ {
 		nums = append(nums, v)
 	}
 	for k := uint(1); k <= 9; k++ {
@@ -316,7 +316,7 @@ func init() {
 	register(&fx.Check{
 		ID:    "C27",
 		Level: "exploration",
-		Rule: "documents: the empty document; every first byte 0..255 × 13 tails (valid/invalid CBE and CTE bodies); valid headers followed by every byte value in 7 positions; CBE version ULEB128 for every v in 0..300 ∪ {2^(7k)-1,2^(7k),2^(7k)+1} ∪ extremes and over-long/non-minimal spellings × 5 bodies; CTE header letter {c,C} × 30 version spellings × 5 separators × 6 bodies; " +
+		Rule: "documents: the empty document; every first byte 0..255 × 13 tails (valid/invalid CBE and CTE bodies); valid headers followed by every byte value in 7 positions; CBE version ULEB128 for every v in 0..300 (thorough: 0..70000) ∪ {2^(7k)-1,2^(7k),2^(7k)+1} ∪ extremes and over-long/non-minimal spellings × 5 bodies; CTE header letter {c,C} × 30 version spellings × 5 separators × 6 bodies; " +
 			"oracles: (a) each universal entry point (UnmarshalCE, UnmarshalFromCEDocument, NewCEDecoder Decode/DecodeDocument) gives the same value/events/error presence as the specific entry point of the detected format, and an error for any other first byte; (b) versions 0 and 1 accepted with identical results, every other version number rejected; (c) every encoder output over the I/O corpus starts with version 0; " +
 			"(d) all 216 three-document sequences over 6 documents of alternating formats on one universal decoder instance; distinct_nontrivial = distinct documents",
 		Assumptions: []string{"non-numeric or oddly spelled versions (empty, 00, 01, -0, 0x0, full-width digit) are only compared differentially, not judged", "non-minimal ULEB128 spellings of 0 and 1 are a don't-care"},
